@@ -650,7 +650,7 @@ func scenarios() []scenario {
 			dir := cli.Scratch()
 			args, _, files, _ := cli.Present("gz", input, "-i")
 			for n, c := range files {
-				cli.Write(dir, n, c)
+				cli.WriteIn(dir, n, c)
 			}
 			r := cli.Run(dir, "", append([]string{"sample", "-n", "1", "--seed", strconv.FormatInt(seed, 10)}, args...)...)
 			if r.Code != 0 {
